@@ -1,4 +1,5 @@
 import Fzf.Lemmas.Reader
+import Fzf.Lemmas.ChunkTail
 /-
 C06 — every input record becomes exactly one item, in order, unaltered.
 Property theorems only.
@@ -31,6 +32,23 @@ theorem C06_records_exact (delim : Nat) (recs : List Str) (hfree : ∀ r ∈ rec
     `feed` duplicate the unterminated tail ("a\nb" ⇒ a, bb) — finding F4, outside what os.File does. -/
 theorem C06_data_with_eof_witness :
     feed 10 [⟨[97, 10, 98], .eof⟩] = [[97], [98, 98]] ∧ splitRecords 10 [97, 10, 98] = [[97], [98]] := by decide
+
+/-- **--tail N: exactly the last N records remain searchable.** After any history of pushes and
+    snapshots that trim to `tail` (whatever the chunk size, wherever the trims fall inside or
+    across chunks), the next snapshot shows exactly the last `tail` items pushed since the start
+    of the stream, in order and unaltered — all of them while fewer than `tail` were pushed. The
+    items keep the identity (number) they were pushed with. -/
+theorem C06_tail_keeps_last_n (cz tail : Nat) (ht : 0 < tail) (ops : List ChunkHeap.Op) (hs : ChunkHeap.snapsWith tail ops) :
+    let cl := ops.foldl (ChunkHeap.step cz) ⟨[], []⟩
+    ChunkHeap.contents (ChunkHeap.snapshot tail cl).1 (ChunkHeap.snapshot tail cl).2 = lastN tail (ChunkHeap.pushedBy ops) :=
+  ChunkHeap.tail_snapshot_is_last_pushed cz tail ht ops hs
+
+/-- Items numbered 0..6 pushed into chunks of 3 with --tail 2 and snapshots in between: the last
+    snapshot shows items 5 and 6 under their original numbers. -/
+example :
+    let ops : List ChunkHeap.Op := [.push 0, .push 1, .push 2, .snap 2, .push 3, .push 4, .snap 2, .push 5, .push 6]
+    let cl := ops.foldl (ChunkHeap.step 3) ⟨[], []⟩
+    ChunkHeap.contents (ChunkHeap.snapshot 2 cl).1 (ChunkHeap.snapshot 2 cl).2 = [5, 6] := by decide
 
 /- Non-vacuity: a stream cut in the middle of a record and on a delimiter. -/
 example : OSReads [⟨[97], .nil⟩, ⟨[98, 10], .nil⟩, ⟨[10, 99], .nil⟩, ⟨[], .eof⟩] := by simp [OSReads]
